@@ -171,9 +171,75 @@ fn do_op(run: &RunDesc, op: &Op, at: Where, sh: &Shared) {
     sh.oracle.lock().unwrap().observe(key, op.entry, at, out);
 }
 
+/// Crowd runs (more than 32 threads): 4 long-lived callers do their first
+/// conversion and wait; the churn runs in waves of 16 short-lived threads; then
+/// the 8 late-comers start and the long-lived ones continue alongside them.
+fn crowd_scenario(run: &Arc<RunDesc>, sh: &Arc<Shared>) {
+    use shuttle::sync::{Condvar, Mutex as SMutex};
+    let n = run.threads.len();
+    let gate = Arc::new((SMutex::new((0usize, false)), Condvar::new())); // (started, open)
+    let spawn_plain = |t: usize| {
+        let run = run.clone();
+        let sh = sh.clone();
+        shuttle::thread::spawn(move || {
+            for (i, op) in run.threads[t].iter().enumerate() {
+                do_op(&run, op, Where { run: run.idx, thread: t as i32, pos: i as u32 }, &sh);
+            }
+        })
+    };
+    let mut long_lived = vec![];
+    for t in 0..4 {
+        let run = run.clone();
+        let sh = sh.clone();
+        let gate = gate.clone();
+        long_lived.push(shuttle::thread::spawn(move || {
+            for (i, op) in run.threads[t].iter().enumerate() {
+                do_op(&run, op, Where { run: run.idx, thread: t as i32, pos: i as u32 }, &sh);
+                if i == 0 {
+                    let (m, cv) = &*gate;
+                    let mut g = m.lock().unwrap();
+                    g.0 += 1;
+                    cv.notify_all();
+                    while !g.1 {
+                        g = cv.wait(g).unwrap();
+                    }
+                }
+            }
+        }));
+    }
+    {
+        let (m, cv) = &*gate;
+        let mut g = m.lock().unwrap();
+        while g.0 < 4 {
+            g = cv.wait(g).unwrap();
+        }
+    }
+    let mut t = 4;
+    while t < n - 8 {
+        let hi = (t + 16).min(n - 8);
+        let wave: Vec<_> = (t..hi).map(spawn_plain).collect();
+        for h in wave {
+            let _ = h.join();
+        }
+        t = hi;
+    }
+    let late: Vec<_> = (n - 8..n).map(spawn_plain).collect();
+    {
+        let (m, cv) = &*gate;
+        m.lock().unwrap().1 = true;
+        cv.notify_all();
+    }
+    for h in late.into_iter().chain(long_lived) {
+        let _ = h.join();
+    }
+}
+
 fn scenario(run: &Arc<RunDesc>, sh: &Arc<Shared>) {
     for (i, op) in run.warmup.iter().enumerate() {
         do_op(run, op, Where { run: run.idx, thread: -1, pos: i as u32 }, sh);
+    }
+    if run.threads.len() > 32 {
+        return crowd_scenario(run, sh);
     }
     let mut hs = vec![];
     for t in 0..run.threads.len() {
@@ -227,7 +293,8 @@ fn exec_run(run: Arc<RunDesc>, sh: Arc<Shared>) -> RunReport {
             };
             let sched = Recording { inner, rec: rec2 };
             let mut config = shuttle::Config::new();
-            config.stack_size = 16 << 20;
+            // crowds of tiny conversions get smaller stacks (hundreds of tasks)
+            config.stack_size = if run2.threads.len() > 32 { 4 << 20 } else { 16 << 20 };
             config.max_steps = shuttle::MaxSteps::None;
             config.failure_persistence = shuttle::FailurePersistence::None;
             config.silence_warnings = true;
